@@ -131,6 +131,7 @@ type ctl struct {
 	ins      []chan int
 	newSnd   chan<- int
 	xins     []*xport // input i when its element type is not int (folds over other carriers, cfg.Elem)
+	free     bool     // a free run (free.go): no bubble, its own bounds
 	twin     *ctl     // cfg.Twin: a second instance of the same stage in the same bubble (elem.go)
 	baseLive int      // library goroutines that belong to the twin
 	inline   bool     // inside a burst
@@ -162,10 +163,21 @@ func (c *ctl) unit() time.Duration {
 
 func (c *ctl) now() int { return int(time.Since(c.start) / c.unit()) }
 
+// Runaway is called (by the test driver: report the schedule as hung, end the process) when more than a million completions
+// pile up within one window: library goroutines keep each other busy for ever and the log would eat the memory.
+var Runaway func()
+
+func (c *ctl) runaway() {
+	if len(c.done) > 1000000 && Runaway != nil && !c.free {
+		Runaway()
+	}
+}
+
 func (c *ctl) emit(e Ev) {
 	c.mu.Lock()
 	e.At = c.now()
 	c.done = append(c.done, e)
+	c.runaway()
 	c.mu.Unlock()
 }
 
@@ -181,6 +193,7 @@ func (c *ctl) enter(a, x int) {
 		c.callArg[k] = x
 	}
 	c.done = append(c.done, Ev{E: "call", A: a, X: x, K: k, At: c.now()})
+	c.runaway()
 	c.mu.Unlock()
 	if g != nil {
 		<-g
